@@ -12,3 +12,4 @@ import SimuVerif.Properties.C15
 import SimuVerif.Properties.C14
 import SimuVerif.Properties.C04
 import SimuVerif.Properties.C08
+import SimuVerif.Properties.C19
